@@ -332,6 +332,10 @@ class bpch2(bpch_base):
         add_vert(self, 'hybi')
         add_vert(self, 'etai_pressure')
         add_vert(self, 'etam_pressure')
+        # time coordinates from a variable that is present at every time
+        tkey = [tk for tk, tv in tmpvariables.items()
+                if tv.shape[0] == maxntimes][0]
+        tmpvar = self.variables[tkey]
         for k, v in [('tau0', tmpvar._tau0),
                      ('time', tmpvar._tau0),
                      ('tau1', tmpvar._tau1)]:
